@@ -41,7 +41,7 @@ class Persistence:
             LOGGER.debug("Persistence file missing, creating file: %s", path)
             await self.save()
             return
-        except (OSError, ValueError) as err:
+        except (OSError, ValueError, RecursionError) as err:
             raise PersistenceReadError(err) from err
 
         node_schema = NodeSchema()
@@ -49,7 +49,7 @@ class Persistence:
             nodes: list[Node] = [
                 node_schema.load(node_data) for node_data in data.values()
             ]
-        except (AttributeError, TypeError, ValidationError) as err:
+        except (AttributeError, RecursionError, TypeError, ValidationError) as err:
             raise PersistenceReadError(err) from err
 
         for node in nodes:
